@@ -5,6 +5,7 @@ import (
 	"go/constant"
 	"go/token"
 	"go/types"
+	"sort"
 	"strings"
 
 	"golang.org/x/tools/go/ssa"
@@ -154,25 +155,43 @@ func (c *Ctx) hashPreimage() {
 		}
 		return derivesFrom(cl.Call.Args[1], func(x ssa.Value) bool { return x == ssa.Value(lvl) }, false)
 	}
+	// the rule's own named primitives are not entered; every other unexported helper of the package is read
+	// as if inlined (E19), so extracting a step of the loop into a helper changes nothing
+	prims := map[string]bool{"newImmutableCell": true, "d1": true, "d2": true, "bocReprWithoutRefs": true, "Hash": true, "Depth": true, "Apply": true, "IsSignificant": true, "HashIndex": true, "HashesCount": true, "Level": true}
+	stop := func(g *ssa.Function) bool { return prims[g.Name()] }
+	view := c.inlineView(f, 2, stop)
+	callsQ := func(q string) []vinstr {
+		var out []vinstr
+		for _, vi := range view {
+			if cl, ok := vi.in.(*ssa.Call); ok && callQName(&cl.Call) == q {
+				out = append(out, vi)
+			}
+		}
+		return out
+	}
+	argOf := func(vi vinstr, i int) ssa.Value {
+		v, _ := resolveDeep(vi.in.(*ssa.Call).Call.Args[i], vi.cx)
+		return v
+	}
 	// every d1(...) and bocReprWithoutRefs(...) call takes mask.Apply(i)
 	n := 0
 	okMask := true
 	for _, q := range []string{bocPath + ".d1", bocPath + ".Cell.bocReprWithoutRefs"} {
-		for _, cl := range callsTo(f, q) {
+		for _, vi := range callsQ(q) {
 			n++
-			if !fromApply(cl.Call.Args[1]) {
+			if !fromApply(argOf(vi, 1)) {
 				okMask = false
 			}
 		}
 	}
 	c.check(okMask && n == 2, R, "descriptor byte uses the mask of the level being hashed", f.Pos(), "both the level-0 representation and the higher-level descriptor take c.mask.Apply(i)", "the descriptor byte d1 (or the representation) of a level is no longer computed from mask.Apply(level): cells with two or more mask bits hash wrongly above level 0")
-	// order of hash.Write calls in the loop: [repr | d1d2 + previous hash] , depths (in refs loop), hashes (in refs loop)
-	var writes []*ssa.Call
-	allInstrs(f, func(_ *ssa.BasicBlock, in ssa.Instruction) {
-		if cl, ok := in.(*ssa.Call); ok && cl.Call.IsInvoke() && cl.Call.Method.Name() == "Write" {
-			writes = append(writes, cl)
+	// order of hash.Write calls in one iteration of the level loop: [repr | d1d2 + previous hash] , depths (in refs loop), hashes (in refs loop)
+	var writes []vinstr
+	for _, vi := range view {
+		if cl, ok := vi.in.(*ssa.Call); ok && cl.Call.IsInvoke() && cl.Call.Method.Name() == "Write" {
+			writes = append(writes, vi)
 		}
-	})
+	}
 	kind := func(cl *ssa.Call) string {
 		a := cl.Call.Args[0]
 		switch {
@@ -189,61 +208,132 @@ func (c *Ctx) hashPreimage() {
 		}
 		return "?"
 	}
+	byKind := map[string][]vinstr{}
 	var seq []string
 	for _, w := range writes {
-		seq = append(seq, kind(w))
+		k := kind(w.in.(*ssa.Call))
+		seq = append(seq, k)
+		byKind[k] = append(byKind[k], w)
 	}
+	sort.Strings(seq)
 	got := strings.Join(seq, " ")
-	// depth writes dominate hash writes; repr/d1d2 first
-	okOrder := got == "repr d1d2 prevhash childdepth childhash"
-	c.check(okOrder, R, "preimage segment order", f.Pos(), "representation | (d1 d2, previous level hash) ; all child depths ; all child hashes", "the SHA-256 preimage is written in the order ["+got+"], the definition is [repr | d1d2 prevhash] [child depths] [child hashes]")
-	// depth loop completes before hash loop starts: the block of the depth write dominates ... check via blocks: childdepth write block must not be reachable from childhash write block without passing the level loop header
+	// a runs before b in one iteration (compared where their call chains part)
+	header := lvl.Block()
+	runsBefore := func(a, b vinstr) bool {
+		chain := func(v vinstr) []ssa.Instruction {
+			var out []ssa.Instruction
+			out = append(out, v.in)
+			for cx := v.cx; cx != nil && cx.site != nil; cx = cx.parent {
+				out = append([]ssa.Instruction{cx.site}, out...)
+			}
+			return out
+		}
+		ca, cb := chain(a), chain(b)
+		for i := 0; i < len(ca) && i < len(cb); i++ {
+			if ca[i] == cb[i] {
+				continue
+			}
+			g := ca[i].Parent()
+			var h *ssa.BasicBlock
+			if g == f {
+				h = header
+			}
+			return orderedWithin(g, h, ca[i], cb[i]) && !orderedWithin(g, h, cb[i], ca[i])
+		}
+		return false
+	}
+	allBefore := func(ka, kb string) bool {
+		for _, a := range byKind[ka] {
+			for _, b := range byKind[kb] {
+				if !runsBefore(a, b) {
+					return false
+				}
+			}
+		}
+		return true
+	}
+	exclusive := func(ka, kb string) bool {
+		for _, a := range byKind[ka] {
+			for _, b := range byKind[kb] {
+				ta, tb := a.top(), b.top()
+				if ta == tb || orderedWithin(f, header, ta, tb) || orderedWithin(f, header, tb, ta) {
+					return false
+				}
+			}
+		}
+		return true
+	}
+	okOrder := len(byKind["?"]) == 0
+	for _, k := range []string{"repr", "d1d2", "prevhash", "childdepth", "childhash"} {
+		if len(byKind[k]) == 0 {
+			okOrder = false
+		}
+	}
+	okOrder = okOrder && allBefore("d1d2", "prevhash") && allBefore("repr", "childdepth") && allBefore("prevhash", "childdepth") && allBefore("childdepth", "childhash") && exclusive("repr", "d1d2") && exclusive("repr", "prevhash")
+	c.check(okOrder, R, "preimage segment order", f.Pos(), "representation | (d1 d2, previous level hash) ; all child depths ; all child hashes (order of the Write calls along the paths of one loop iteration)", "the SHA-256 preimage of a level is not written as [repr | d1d2 prevhash] [child depths] [child hashes]: the Write calls found are ["+got+"] and their order along the paths of one iteration differs from the definition")
 	var dW, hW *ssa.Call
-	for i, w := range writes {
-		if seq[i] == "childdepth" {
-			dW = w
-		}
-		if seq[i] == "childhash" {
-			hW = w
-		}
+	if len(byKind["childdepth"]) > 0 {
+		dW = byKind["childdepth"][0].in.(*ssa.Call)
+	}
+	if len(byKind["childhash"]) > 0 {
+		hW = byKind["childhash"][0].in.(*ssa.Call)
 	}
 	if dW != nil && hW != nil {
 		// both child writes index the same level: their level argument is the same value
-		dl := callsTo(f, bocPath+".immutableCell.Depth")
-		hl := callsTo(f, bocPath+".immutableCell.Hash")
-		same := len(dl) == 1 && len(hl) == 1 && dl[0].Call.Args[1] == hl[0].Call.Args[1]
+		dl := callsQ(bocPath + ".immutableCell.Depth")
+		hl := callsQ(bocPath + ".immutableCell.Hash")
+		same := len(dl) == 1 && len(hl) == 1 && argOf(dl[0], 1) == argOf(hl[0], 1)
 		c.check(same, R, "child depth and child hash are taken at the same level", dW.Pos(), "Depth(childLevelIndex) and Hash(childLevelIndex) share the level value", "child depths and child hashes are taken at different levels")
 		// the shared level is i or i+1 exactly under the Merkle-type test
 		if same {
-			lv := dl[0].Call.Args[1]
-			okShift := false
-			if ph, ok := lv.(*ssa.Phi); ok && len(ph.Edges) == 2 {
-				plain, shifted := false, false
+			lv := argOf(dl[0], 1)
+			plain, shifted, other := false, false, false
+			type vc = struct {
+				v  ssa.Value
+				cx *vctx
+			}
+			var cands []vc
+			if ph, ok := lv.(*ssa.Phi); ok {
 				for _, e := range ph.Edges {
-					if e == ssa.Value(lvl) {
-						plain = true
-					}
-					if bo, ok := e.(*ssa.BinOp); ok && bo.Op == token.ADD && bo.X == ssa.Value(lvl) {
-						if k, ok := constInt(bo.Y); ok && k == 1 {
-							shifted = true
-						}
+					cands = append(cands, vc{e, nil})
+				}
+			} else {
+				for _, x := range helperReturns(lv, nil, stop) {
+					cands = append(cands, vc{x.v, x.cx})
+				}
+			}
+			for _, cd := range cands {
+				e, cx := resolveDeep(cd.v, cd.cx)
+				if e == ssa.Value(lvl) {
+					plain = true
+					continue
+				}
+				if bo, ok := e.(*ssa.BinOp); ok && bo.Op == token.ADD {
+					x, _ := resolveDeep(bo.X, cx)
+					if k, ok := constInt(bo.Y); ok && k == 1 && x == ssa.Value(lvl) {
+						shifted = true
+						continue
 					}
 				}
-				okShift = plain && shifted
+				other = true
 			}
-			c.check(okShift, R, "Merkle cells hash their children one level up", dW.Pos(), "childLevelIndex is i, or i+1 on the Merkle-proof / Merkle-update edge", "the child level is no longer i for ordinary cells and i+1 for Merkle cells")
+			c.check(plain && shifted && !other, R, "Merkle cells hash their children one level up", dW.Pos(), "childLevelIndex is i, or i+1 on the Merkle-proof / Merkle-update edge", "the child level is no longer i for ordinary cells and i+1 for Merkle cells")
 		}
 		// the i+1 edge is taken exactly for cell types 3 and 4
-		var types []int64
-		for _, b := range f.Blocks {
-			if ifi := lastIf(b); ifi != nil {
-				if bo, ok := ifi.Cond.(*ssa.BinOp); ok && bo.Op == token.EQL {
-					if k, ok := constInt(bo.Y); ok && derivesFrom(bo.X, fieldLoadOf("boc.Cell.cellType"), false) && k >= 2 {
-						types = append(types, k)
-					}
+		tset := map[int64]bool{}
+		for _, vi := range view {
+			ifi, ok := vi.in.(*ssa.If)
+			if !ok {
+				continue
+			}
+			if bo, ok := ifi.Cond.(*ssa.BinOp); ok && (bo.Op == token.EQL || bo.Op == token.NEQ) {
+				x, _ := resolveDeep(bo.X, vi.cx)
+				if k, ok := constInt(bo.Y); ok && k >= 2 && derivesFrom(x, fieldLoadOf("boc.Cell.cellType"), false) {
+					tset[k] = true
 				}
 			}
 		}
+		types := keysOfInt(tset)
 		c.check(fmt.Sprint(types) == "[3 4]", R, "the shifted child level applies to Merkle proof and Merkle update cells", dW.Pos(), "cellType == 3 || cellType == 4", fmt.Sprintf("the child-level shift is applied for cell types %v, the definition says Merkle proof (3) and Merkle update (4)", types))
 	}
 }
@@ -265,15 +355,17 @@ func (c *Ctx) hashDepthLimit() {
 	}
 	// the append to imm.depths of a depth that was incremented is dominated by the false edge of depth >= maxDepth
 	var guard *ssa.If
+	passIdx := 1
+	var guarded ssa.Value
 	for _, b := range f.Blocks {
 		if ifi := lastIf(b); ifi != nil {
-			if bo, ok := ifi.Cond.(*ssa.BinOp); ok && bo.Op == token.GEQ {
-				if k, ok := constInt(bo.Y); ok && k == 1024 {
-					for _, s := range b.Succs {
-						if returnsSentinel(s, "ErrDepthIsTooBig") {
-							guard = ifi
-						}
-					}
+			for i, s := range b.Succs {
+				if !returnsSentinel(s, "ErrDepthIsTooBig") {
+					continue
+				}
+				// rejected exactly from 1024 on, however the comparison is spelt
+				if x, lo, ok := rejectLowerBound(ifi, i); ok && lo == 1024 {
+					guard, passIdx, guarded = ifi, 1-i, stripConv(x)
 				}
 			}
 		}
@@ -288,13 +380,9 @@ func (c *Ctx) hashDepthLimit() {
 				return
 			}
 			// the running depth is the value the limit guard compares with 1024
-			var guarded ssa.Value
-			if gb, ok := guard.Cond.(*ssa.BinOp); ok {
-				guarded = stripConv(gb.X)
-			}
 			if ph, ok := bo.X.(*ssa.Phi); ok && ssa.Value(ph) == guarded {
 				if k, ok := constInt(bo.Y); ok && k == 1 {
-					if !edgeDominates(f, edge{guard.Block(), 1}, b) {
+					if !edgeDominates(f, edge{guard.Block(), passIdx}, b) {
 						okInc = false
 					}
 				}
@@ -776,8 +864,17 @@ func (c *Ctx) levelMaskExact() {
 			return ok && k == 1
 		}
 		okv, desc := false, "?"
+		// the returned values: a comparison, or the phi of a short-circuit form (level == 0 || bit test)
+		var rets []ssa.Value
 		for _, r := range returnsOf(f) {
 			v := retVal(r, 0)
+			if phi, ok := v.(*ssa.Phi); ok {
+				rets = append(rets, phi.Edges...)
+			} else {
+				rets = append(rets, v)
+			}
+		}
+		for _, v := range rets {
 			if _, isConst := v.(*ssa.Const); isConst {
 				continue
 			}
